@@ -804,7 +804,7 @@ impl Property for C01 {
         Meta {
             level: "exploration",
             rule: "each run is a seeded producer module (3-24 instructions, core and KHR/EXT opcodes whose layout class the statement fixes, <= 1 OpMemoryModel) passed through a legally reordering medium (3/4 of the runs: module-level instructions of the opcode-fixed sections moved anywhere incl. inside blocks, sections permuted, a parameter moved behind its function's blocks; string padding bytes and spare version bytes randomised), then real load -> real assemble -> real load; compared word for word against the reference encoding of the stable layout sort of the input; abstract trace = (reorderings, sequence of layout classes); non-trivial = >= 3 instructions",
-            lanes: "storage faults the loader should reject (string byte -> invalid UTF-8, undeclared enumerant word, stray structural instruction) with a weak lane: if the loader accepts anyway, frame-level conservation is demanded; ext-inst hot spot (known / NonSemantic / near-miss set names) inside blocks; boundary ids (0, 2^31, u32::MAX); minor versions up to 255; rare giant features (0xFFFD..0xFFFF-word instructions, 65k..262k-byte strings, 363 distinct types, 65k+ tracked ids); order clause for accepted-but-ill-bracketed inputs (relative order inside every output section, parameter list and function); stray OpLine + body instruction outside blocks; declarations moved into a block behind an OpLine; registered extension names; boundary header bounds (0, 1, 2^31, 2^32-1); linkage and structured-merge hot spots; dense ids across 2^k boundaries",
+            lanes: "storage faults the loader should reject (string byte -> invalid UTF-8, undeclared enumerant word, stray structural instruction) with a weak lane: if the loader accepts anyway, frame-level conservation is demanded; ext-inst hot spot (known / NonSemantic / near-miss set names) inside blocks; boundary ids (0, 2^31, u32::MAX); minor versions up to 255; rare giant features (0xFFFD..0xFFFF-word instructions, 65k..262k-byte strings, 363 distinct types, 65k+ tracked ids); order clause for accepted-but-ill-bracketed inputs (relative order inside every output section, parameter list and function); stray OpLine + body instruction outside blocks; declarations moved into a block behind an OpLine; registered extension names; boundary header bounds (0, 1, 2^31, 2^32-1); linkage and structured-merge hot spots; dense ids across 2^k boundaries; the same instruction delivered twice in a row; repeated switch / table entries; references that point at real functions, function types, labels, variables and pointer types of the module; annotations aimed at ids defined later",
             triple_measure: "n/a",
             item_measure: "opcodes that went through load+assemble and were compared word for word",
             assumptions: &[
